@@ -24,6 +24,10 @@ from ..omach import OMachine, Obj, Vec, It, Fault
 from . import common
 
 
+class Reported(Exception):
+    """the stack reports an error through the execution context (which throws)"""
+
+
 class VWorld:
     construct_objects = True
 
@@ -67,13 +71,22 @@ class VWorld:
                 return 0
             if tgt == 'ECTX' and n == 'getRootDocument':
                 return 'DOC'
+            if tgt == 'ECTX' and n == 'problem':
+                raise Reported('problem reported')
+            if isinstance(tgt, Obj) and tgt.cls == 'strguard' and n == 'get':
+                return ''
             if isinstance(tgt, Obj) and tgt.cls.endswith('ElemVariable'):
                 if n == 'getValue':
                     # evaluating the defining expression '$x': one variable reference, resolved by the stack as it is now
+                    self.nested = getattr(self, 'nested', 0) + 1
+                    if self.nested > 12:
+                        self.nested = 0
+                        raise Fault('the evaluation of a variable asks for itself again and again (12 nested evaluations): the C++ stack overflows')
                     sub = OMachine(self, {}, self.stack)
                     sub.fuel = 6000
                     v = sub.run_body(self.F['find'], [tgt.fields['refers'], 'ECTX', 0, 1, 0], self.stack)
                     got = v[1] if isinstance(v, tuple) and v and v[0] == 'VAL' else None
+                    self.nested -= 1
                     tgt.fields['evaluations'] += 1
                     return ('VAL', 'f(%s)' % got)
                 if n == 'getXPath':
@@ -93,6 +106,10 @@ class VWorld:
                 return 1
             if n == 'getMemoryManager':
                 return 'MM'
+        if k == 'Ctor' and 'GetCachedString' in cls:
+            return Obj('strguard', {})
+        if k == 'Call' and n == 'getMessage':
+            return ''
         if k == 'Ctor':
             if 'XObjectPtr' in cls:
                 a = c.get('args', [])
@@ -310,4 +327,65 @@ def run_rule(res, facts, tier):
                 r.ok('%s [%s]' % (what, label))
             else:
                 r.violation('variables stack: %s' % what.split(' [')[0], '[%s] yields %r, XSLT 1.0 11.4 requires %r' % (label, got, want), common.file_line(F['find']))
+    return r
+
+
+
+def run_cycle_rule(res, facts, tier):
+    """C03-R13: circular definitions of global variables are reported, not followed.  XSLT 1.0 11.4 makes them an error; evaluated on demand they are an unbounded recursion -
+    a stack overflow, SIGSEGV - unless findXObject recognises that the variable it is asked for is already being evaluated, at ANY depth of the evaluation."""
+    r = res.rule('C03-R13', 'circular definitions of global variables (length 1, 2, 3 and 4, referenced from a template with and without locals) end in a reported error: '
+                 'VariablesStack::findXObject interpreted with variable elements whose evaluation asks the same stack for the next variable of the cycle', floor=8)
+    w = VWorld(facts)
+    K = NS + 'VariablesStack'
+
+    def fn(name, nparams, pred=lambda a: True):
+        c = [a for a in facts.asts('VariablesStack::' + name, must=False) if a.get('body') is not None and len(a['params']) == nparams and pred(a)]
+        if len(c) != 1:
+            raise AnalysisBroken('VariablesStack::%s/%d: %d bodies' % (name, nparams, len(c)))
+        return c[0]
+    F = {'marker': fn('pushContextMarker', 0), 'unmarker': fn('popContextMarker', 0), 'frame': fn('pushElementFrame', 1), 'unframe': fn('popElementFrame', 0),
+         'var': fn('pushVariable', 3, lambda a: 'XObjectPtr' in a['params'][1]['ty']), 'mark': fn('markGlobalStackFrame', 0), 'find': fn('findXObject', 5),
+         'lazy': fn('pushVariable', 3, lambda a: 'ElemVariable' in a['params'][1]['ty'])}
+    w.F = F
+
+    def call(st, name, *args):
+        w.calls = 0
+        w.stack = st
+        m = OMachine(w, {}, st)
+        m.fuel = 6000
+        return m.run_body(F[name], list(args), st)
+    for length, with_local in itertools.product((1, 2, 3, 4), (0, 1)):
+        names = ['v%d' % i for i in range(length)]
+        label = 'cycle %s -> %s%s' % (' -> '.join(names), names[0], ', first referenced where a local is in scope' if with_local else '')
+        st = Obj(K, {'m_stack': Vec([]), 'm_globalStackFrameIndex': 2 ** 32 - 1, 'm_globalStackFrameMarked': 0, 'm_currentStackFrameIndex': 0, 'm_guardStack': Vec([]),
+                     'm_elementFrameStack': Vec([])})
+        w.nested = 0
+        outcome = None
+        try:
+            call(st, 'marker')
+            call(st, 'frame', 'ROOT')
+            for i, nm in enumerate(names):
+                call(st, 'lazy', nm, Obj(NS + 'ElemVariable', {'name': nm, 'refers': names[(i + 1) % length], 'select': 1, 'evaluations': 0}), 'ROOT')
+            call(st, 'mark')
+            call(st, 'marker')
+            call(st, 'frame', 'E1')
+            if with_local:
+                call(st, 'var', 'x', ('VAL', 'LX'), 'E1')
+            w.calls = 0
+            w.stack = st
+            m = OMachine(w, {}, st)
+            m.fuel = 20000
+            m.run_body(F['find'], [names[0], 'ECTX', 0, 1, 0], st)
+            outcome = 'a value'
+        except Reported:
+            outcome = 'reported'
+        except Fault as f:
+            outcome = 'FAULT: %s' % f
+        except Unsupported as u:
+            raise AnalysisBroken('VariablesStack outside the interpreted subset on [%s]: %s' % (label, u))
+        if outcome == 'reported':
+            r.ok(label, 'an error is reported')
+        else:
+            r.violation('circular variable definition of length %d' % length, '[%s] is not reported as an error: %s' % (label, outcome), common.file_line(F['find']))
     return r
